@@ -319,13 +319,24 @@ impl<'a> CompilerState<'a> {
         parse_int_literal(p).ok_or_else(|| self.syntax_error("Integer literal out of range", start))
     }
 
-    fn parse_identifier(&'a self, pairs: Pairs<'a, Rule>) -> Result<(String, Box<Expr>), Error> {
+    fn parse_identifier(
+        &'a self,
+        pairs: Pairs<'a, Rule>,
+        literal_strings: &Mutex<HashMap<String, String>>,
+        literal_counter: &Mutex<usize>,
+    ) -> Result<(String, Box<Expr>), Error> {
         let mut p = pairs;
         let px = p.next().unwrap();
         let varname = px.as_str();
         let subscript = match p.next() {
             Some(pair) => {
                 let expr = self.parse_expr_ex(pair.into_inner())?;
+                // Keep the string literals met in the subscript
+                let mut lit_strs = literal_strings.lock().unwrap();
+                for k in &expr.1 {
+                    lit_strs.insert(k.0.clone(), k.1.clone());
+                }
+                *literal_counter.lock().unwrap() += expr.1.len();
                 Box::new(expr.0)
             }
             None => Box::new(Expr::Nothing),
@@ -448,7 +459,11 @@ impl<'a> CompilerState<'a> {
                         Ok(res.0)
                     }
                     Rule::identifier => {
-                        let id = self.parse_identifier(primary.into_inner())?;
+                        let id = self.parse_identifier(
+                            primary.into_inner(),
+                            &literal_strings,
+                            &literal_counter,
+                        )?;
                         Ok(Expr::Identifier(id.0, id.1))
                     }
                     Rule::quoted_string => {
@@ -610,7 +625,11 @@ impl<'a> CompilerState<'a> {
                         Ok(res.0)
                     }
                     Rule::identifier => {
-                        let id = self.parse_identifier(primary.into_inner())?;
+                        let id = self.parse_identifier(
+                            primary.into_inner(),
+                            &literal_strings,
+                            &literal_counter,
+                        )?;
                         Ok(Expr::Identifier(id.0, id.1))
                     }
                     Rule::quoted_string => {
